@@ -113,7 +113,6 @@ theorem portOf_plain (h58 : 58 ∉ e) (h64 : 64 ∉ e) (h91 : 91 ∉ e)
 theorem hasUserinfo_plain (h64 : 64 ∉ e) : hasUserinfo (plainJoin e port) = false := by
   unfold hasUserinfo
   rw [contains_false_of_not_mem (not_mem_plainJoin port h64 (by decide) (by decide))]
-  rfl
 
 end plain
 
